@@ -81,6 +81,13 @@ Section Render.
     end.
 End Render.
 
+(* --- the template as configured: it reaches the renderer verbatim (outer white space is prefix /
+   suffix text); only the empty template stands for the default "godesigner" --------------------- *)
+Definition default_template : str := [103; 111; 100; 101; 115; 105; 103; 110; 101; 114].
+Definition effective_template (t : str) : str := match t with [] => default_template | _ => t end.
+Definition spec_configured (U : unicode) (t content : str) : option str :=
+  spec_format U (effective_template t) content.
+
 (* --- identifiers of the round-trip clause: a lower-case letter then lower-case letters or digits, joined by single '_' --- *)
 Definition lower_word (w : str) : bool :=
   match w with
